@@ -20,6 +20,7 @@ import (
 	"pgregory.net/rapid"
 
 	"tkestack.io/kvass/pkg/prom"
+	"tkestack.io/kvass/pkg/shard"
 	"tkestack.io/kvass/pkg/sidecar"
 	"tkestack.io/kvass/pkg/target"
 	"verif/harness/vkit"
@@ -43,10 +44,13 @@ type c11Case struct {
 	// FollowUp: after the first generation the configuration is reloaded with a second text:
 	// "" none | "ext" only external labels differ | "edit:<catalogue entry>"
 	FollowUp string `json:"followUp,omitempty"`
+	// PushConfig: the configuration reaches the sidecar through POST /api/v1/status/config (as the coordinator
+	// sends it) instead of a reload of the sidecar's own copy
+	PushConfig bool `json:"pushConfig,omitempty"`
 }
 
 func recC11() *vkit.Recorder {
-	r := vkit.Rec("C11", "exploration", "rapid-generated configurations from the grammar of C16 (every credential a distinctive S3CR3T-n token, some needing YAML quoting) x assignments (jobs with 0-4 targets, jobs with none, targets of jobs that do not exist) x injector options (proxy URL, self-monitoring); oracle: the written file loads with prometheus config.Load and is compared field-wise with the loaded original (job order, one static SD per job matching the assignment one-to-one, http scheme, proxy URL, no basic-auth/TLS, only the label-name repair rule, ingestion-relevant settings kept, no job secret anywhere in the text, global/rules/alerting/remote sections equal including secret values read from the raw YAML); non-trivial = >=2 secrets in different sections, or a job with credentials, or an assignment with an empty / unknown job; distinct = digest of the case")
+	r := vkit.Rec("C11", "exploration", "rapid-generated configurations from the grammar of C16 (every credential a distinctive S3CR3T-n token, some needing YAML quoting) x assignments (jobs with 0-4 targets, jobs with none, targets of jobs that do not exist) x injector options (proxy URL, self-monitoring), delivered through the sidecar HTTP API and the targets manager callbacks (the configuration through POST /api/v1/status/config in half of the cases, before or after the assignment); oracle: the written file loads with prometheus config.Load and is compared field-wise with the loaded original (job order, one static SD per job matching the assignment one-to-one, http scheme, proxy URL, no basic-auth/TLS, only the label-name repair rule, ingestion-relevant settings kept, no job secret anywhere in the text, global/rules/alerting/remote sections equal including secret values read from the raw YAML); non-trivial = >=2 secrets in different sections, or a job with credentials, or an assignment with an empty / unknown job; distinct = digest of the case")
 	r.Assume("'accepted configuration' = accepted by the vendored config.Load; secrets are compared on the loaded structs (Secret is a string type, so the comparison sees the real values)")
 	return r
 }
@@ -67,10 +71,34 @@ func runC11(rec *vkit.Recorder, c *c11Case) []vkit.Violation {
 type c11State struct {
 	cm          *prom.ConfigManager
 	inj         *sidecar.Injector
+	tm          *sidecar.TargetsManager
+	svc         *sidecar.Service
+	push        bool
 	out         string
 	dir         string
 	skipJob     string // follow-up "dropJobTargets": the next assignment has no entry for this job any more
 	onlyTargets bool
+}
+
+// update sends the assignment the way the coordinator does: through the sidecar's HTTP API, from where it
+// reaches the injector as an update callback of the targets manager
+func (st *c11State) update(assign map[string][]*target.Target) error {
+	b, _ := json.Marshal(&shard.UpdateTargetsRequest{Targets: assign})
+	if code, body := serve(st.svc, "POST", "http://s/api/v1/shard/targets/", b); code != 200 {
+		return fmt.Errorf("POST targets answered %d %s", code, body)
+	}
+	return nil
+}
+
+func (st *c11State) reload(text string) error {
+	if !st.push {
+		return st.cm.ReloadFromRaw([]byte(text))
+	}
+	b, _ := json.Marshal(&shard.UpdateConfigRequest{RawContent: text})
+	if code, body := serve(st.svc, "POST", "http://s/api/v1/status/config", b); code != 200 {
+		return fmt.Errorf("POST config answered %d %s", code, body)
+	}
+	return nil
 }
 
 func runC11Phase(rec *vkit.Recorder, c *c11Case, spec *Spec, st *c11State) (vs []vkit.Violation) {
@@ -106,8 +134,12 @@ func runC11Phase(rec *vkit.Recorder, c *c11Case, spec *Spec, st *c11State) (vs [
 		st.inj = sidecar.NewInjector(st.out, sidecar.InjectConfigOptions{ProxyURL: c.ProxyURL, PrometheusURL: "http://127.0.0.1:9090", ShardMonitorEnable: c.Monitor}, prometheus.NewRegistry(), quiet)
 		// wired as in cmd/kvass/sidecar.go: the injector regenerates on every config reload
 		st.cm.AddReloadCallbacks(st.inj.ApplyConfig)
-		// before the first real configuration the file is the placeholder
-		if err := st.inj.UpdateTargets(map[string][]*target.Target{}); err != nil {
+		st.tm = sidecar.NewTargetsManager(filepath.Join(dir, "store"), prometheus.NewRegistry(), quiet)
+		st.tm.AddUpdateCallbacks(st.inj.UpdateTargets)
+		st.svc = sidecar.NewService("", "http://127.0.0.1:1", func() (int64, error) { return 0, nil }, st.cm, st.tm, prometheus.NewRegistry(), quiet)
+		st.push = c.PushConfig
+		// before the first real configuration the file is the placeholder (written when the empty store is loaded)
+		if err := st.tm.Load(); err != nil {
 			add("C11/placeholder-write-fails", "%v", err)
 			return vs
 		}
@@ -117,17 +149,17 @@ func runC11Phase(rec *vkit.Recorder, c *c11Case, spec *Spec, st *c11State) (vs [
 			add("C11/placeholder-invalid", "placeholder file is not a valid configuration: %v", err)
 		}
 		if c.Reorder {
-			_ = st.inj.UpdateTargets(assign)
-			err = st.cm.ReloadFromRaw([]byte(text))
+			_ = st.update(assign)
+			err = st.reload(text)
 		} else {
-			if err = st.cm.ReloadFromRaw([]byte(text)); err == nil {
-				err = st.inj.UpdateTargets(assign)
+			if err = st.reload(text); err == nil {
+				err = st.update(assign)
 			}
 		}
 	} else if st.onlyTargets {
-		err = st.inj.UpdateTargets(assign)
+		err = st.update(assign)
 	} else {
-		err = st.cm.ReloadFromRaw([]byte(text))
+		err = st.reload(text)
 	}
 	if err != nil {
 		add("C11/inject-fails", "injector failed on an accepted configuration: %v", err)
@@ -426,8 +458,9 @@ func runC11Phase(rec *vkit.Recorder, c *c11Case, spec *Spec, st *c11State) (vs [
 func genC11(t *rapid.T) *c11Case {
 	c := &c11Case{Spec: GenSpec(t), Style: GenStyle(t, "style")}
 	c.ProxyURL = rapid.SampledFrom([]string{"http://127.0.0.1:8008", "http://proxy.local:9000", ""}).Draw(t, "proxy")
-	c.Monitor = rapid.IntRange(0, 3).Draw(t, "monitor") == 0
-	c.Reorder = rapid.IntRange(0, 4).Draw(t, "reorder") == 0
+	c.Reorder = rapid.IntRange(0, 3).Draw(t, "reorder") == 0
+	c.PushConfig = rapid.Bool().Draw(t, "pushConfig")
+	c.Monitor = rapid.IntRange(0, 4).Draw(t, "monitor") == 0
 	h := uint64(1000)
 	for _, j := range c.Spec.Jobs {
 		n := rapid.IntRange(0, 4).Draw(t, "n-"+j.Name)
